@@ -117,6 +117,7 @@ class GlobalFacts:
         self.facts = []
         self.version = 0
         self.memo = {}
+        self.atomic_domains = set()
         self.distinct = set()  # pairs of term texts the harness declares different (e.g. hashes of different txs)
 
     def declare_distinct(self, a, b):
